@@ -50,7 +50,17 @@ func (c *Case) docPool(key string, n int, mk func(g *xgen.G) *xdoc.Doc) []*xdoc.
 }
 
 // compile compiles src; a rejection of a text the reference grammar accepts is a violation.
-func (c *Case) compile(src string, detail func() map[string]interface{}) *xpath.Expr {
+func (c *Case) compile(src string, detail func() map[string]interface{}) (ce *xpath.Expr) {
+	defer func() {
+		if x := recover(); x != nil {
+			d := detail()
+			d["expr"] = src
+			pi, _ := classify(x)
+			d["panic"] = pi.String()
+			c.Violation("COMPILE-PANICKED", d)
+			ce = nil
+		}
+	}()
 	e, err := xpath.Compile(src)
 	if err != nil || e == nil {
 		d := detail()
@@ -140,3 +150,14 @@ func sig(e xref.Expr) string {
 
 // queryShape is the iterator-type tree of a compiled expression (verif-tagged hook).
 func queryShape(e *xpath.Expr) string { return xpath.VerifQueryShape(e) }
+
+// safeCompile is Compile for monitors whose business is not Compile's totality (that is C06's):
+// a panic escaping Compile is treated like a rejection there.
+func safeCompile(src string) (e *xpath.Expr, err error) {
+	defer func() {
+		if x := recover(); x != nil {
+			e, err = nil, fmt.Errorf("Compile panicked: %v", x)
+		}
+	}()
+	return xpath.Compile(src)
+}
